@@ -13,7 +13,8 @@ pub(crate) const EXEC_ID: usize = 7;
 /// A real `thread::Set` with `n` threads (1..=5), created through the real
 /// constructors; thread 0 active.
 pub(crate) fn mk_set(n: usize) -> Set {
-    let mut set = Set::new(crate::rt::execution::verif::id(EXEC_ID), MAX_THREADS);
+    // capacity = n: the heap buffer is modelled byte-wise, its size drives the formula size
+    let mut set = Set::new(crate::rt::execution::verif::id(EXEC_ID), n);
     let mut i = 1;
     while i < n {
         set.new_thread();
